@@ -36,7 +36,7 @@ static int     next_slot = 0;
 
 static vfile files[VFS_MAXFILES];
 
-vfs_fault_t vfs_fault = {-1, 0, 0, 0, 0, -1};
+vfs_fault_t vfs_fault = {-1, 0, 0, 0, 0, -1, -1, 0};
 long        vfs_ncalls;
 long        vfs_calls_by_kind[VK_NKINDS];
 vfs_logent *vfs_log;
@@ -411,13 +411,23 @@ vfs_fault_set(long at, int variant, int sticky, unsigned mask)
     vfs_fault.mask       = mask;
     vfs_fault.fired      = 0;
     vfs_fault.first_kind = -1;
+    vfs_fault.at2        = -1;
+    vfs_fault.fired2     = 0;
     vfs_ncalls           = 0;
+}
+void
+vfs_fault_set2(long at2)
+{
+    vfs_fault.at2    = at2;
+    vfs_fault.fired2 = 0;
 }
 void
 vfs_fault_clear(void)
 {
     vfs_fault.at = -1;
     vfs_fault.fired = 0;
+    vfs_fault.at2 = -1;
+    vfs_fault.fired2 = 0;
 }
 
 void
@@ -425,6 +435,20 @@ vfs_kind_trace_start(void)
 {
     kind_trace_on    = 1;
     vfs_kind_trace_n = 0;
+}
+
+/* debugging aid for replays: VFS_TRACE=1 prints where an injected failure lands */
+extern void __sanitizer_print_stack_trace(void);
+static void
+fault_trace(long k, int kind)
+{
+    static int on = -1;
+    if (on < 0)
+        on = getenv("VFS_TRACE") != NULL;
+    if (on) {
+        fprintf(stderr, "[vfs] injected failure at call #%ld (%s)\n", k, vfs_kind_name[kind]);
+        __sanitizer_print_stack_trace();
+    }
 }
 
 /* returns nonzero if this call must fail */
@@ -448,7 +472,13 @@ fault_tick(int kind)
         if (vfs_fault.fired == 0)
             vfs_fault.first_kind = kind;
         vfs_fault.fired++;
+        fault_trace(k, kind);
         return 1;
+    }
+    if (k == vfs_fault.at2) {
+        vfs_fault.fired2++;
+        fault_trace(k, kind);
+        return 2;
     }
     return 0;
 }
@@ -550,9 +580,10 @@ __wrap_fread(void *buf, size_t sz, size_t n, FILE *fp)
     if (dead(s, "fread"))
         return 0;
     size_t want = sz * n;
-    if (fault_tick(VK_FREAD)) {
+    int ft = fault_tick(VK_FREAD);
+    if (ft) {
         errno = EIO;
-        if (vfs_fault.variant == 1 && want > 1 && sz == 1) {
+        if (ft == 1 && vfs_fault.variant == 1 && want > 1 && sz == 1) {
             long got = vfs_read_at(s->f, s->pos, buf, (long)(want / 2));
             s->pos += got;
             return (size_t)got;
@@ -586,9 +617,10 @@ __wrap_fwrite(const void *buf, size_t sz, size_t n, FILE *fp)
     if (dead(s, "fwrite"))
         return 0;
     size_t want = sz * n;
-    if (fault_tick(VK_FWRITE)) {
-        errno = vfs_fault.variant == 1 ? ENOSPC : EIO;
-        if (vfs_fault.variant == 1 && want > 1 && sz == 1 && s->can_write) {
+    int ft = fault_tick(VK_FWRITE);
+    if (ft) {
+        errno = (ft == 1 && vfs_fault.variant == 1) ? ENOSPC : EIO;
+        if (ft == 1 && vfs_fault.variant == 1 && want > 1 && sz == 1 && s->can_write) {
             long half = (long)(want / 2);
             log_add(s->f, 0, s->pos, buf, half);
             vfs_write_at(s->f, s->pos, buf, half);
